@@ -401,6 +401,8 @@ type Acc struct {
 	errs     map[string]bool
 	errTexts map[string]bool
 	reuseDiff, routeDiff string
+	cfgDiff, capsDiff    string
+	HTTPHits             int
 	crdsSeen map[string][]string
 	bodyIncl map[string]bool
 	Schema   []string
@@ -467,7 +469,8 @@ func (a *Acc) Result(crdsFirst []string) ObsLine {
 	defer a.mu.Unlock()
 	o := Obs{Runs: a.Runs, DManifest: len(a.body), DHooks: len(a.hooks), DNotes: len(a.notes), DCrds: len(a.crd),
 		DEngine: len(a.eng), DErr: len(a.errs), DErrText: len(a.errTexts), ReuseSame: a.reuseDiff == "", RouteSame: a.routeDiff == "",
-		ReuseDiff: a.reuseDiff, RouteDiff: a.routeDiff, Manifest: []ManEntry{}, Hooks: []HookEntry{}, Crds: []string{}, Engine: []int{},
+		ReuseDiff: a.reuseDiff, RouteDiff: a.routeDiff, CfgReuseSame: a.cfgDiff == "", CfgReuseDiff: a.cfgDiff,
+		CapsConcSame: a.capsDiff == "", CapsConcDiff: a.capsDiff, HTTPHits: a.HTTPHits, Manifest: []ManEntry{}, Hooks: []HookEntry{}, Crds: []string{}, Engine: []int{},
 		NotesSeen: []string{}, CrdsSeen: [][]string{}, Schema: a.Schema, Uninst: a.Uninst, UninstErr: a.UninstErr, Err: "none"}
 	if a.First != nil {
 		f := a.First
@@ -733,4 +736,112 @@ func canonEngine(out map[string]string, err error) string {
 		fmt.Fprintf(&sb, "%q=%q;", k, out[k])
 	}
 	return sb.String()
+}
+
+const extraAPI = "verif.example/v9" // the API version the CAPA program asks for
+
+func (m *Materialised) capaPayloads(o One) []string {
+	var out []string
+	for _, e := range o.Manifest {
+		if d := m.Case.docAt(e.P, e.I); d != nil && d.G == "CAPA" {
+			out = append(out, e.V)
+		}
+	}
+	for _, e := range o.HookList {
+		if d := m.Case.docAt(e.P, e.I); d != nil && d.G == "CAPA" {
+			out = append(out, e.V)
+		}
+	}
+	return out
+}
+
+// ObserveCaps exercises the capability options of a client-only render (what `helm template --kube-version
+// --api-versions` sets) on charts that consult .Capabilities:
+//  1. ONE action.Configuration used for two renders, the first with --kube-version / --api-versions, the second
+//     without: the second must equal the render through a fresh Configuration;
+//  2. overlapping renders, each with its own Configuration and exactly ONE --api-versions entry: the renders that
+//     carry the entry the template asks for see it ("true"), the others equal the plain render.
+func ObserveCaps(a *Acc, m *Materialised, rounds, conc int, seed int64) {
+	if !m.Case.uses("CAPA") && !m.Case.uses("CAPV") {
+		return
+	}
+	a.mu.Lock()
+	first := a.First
+	a.mu.Unlock()
+	if first == nil || first.Err != "none" {
+		return
+	}
+	r := rngFor(seed, "caps:"+a.Line.ID)
+	want := first.Triple()
+	run := func(cfg *action.Configuration, kv string, apis []string) One {
+		var o One
+		ch, err := m.Load("files", rand.New(rand.NewSource(r.Int63())))
+		if err != nil {
+			o.Err = "load"
+			return o
+		}
+		in := action.NewInstall(cfg)
+		in.ClientOnly, in.DryRun, in.Replace, in.ReleaseName, in.Namespace = true, true, true, "rel", "ns"
+		in.SubNotes, in.EnableDNS = m.Case.SubNotes, m.Case.DNS
+		if kv != "" {
+			if v, err := chartutil.ParseKubeVersion(kv); err == nil {
+				in.KubeVersion = v
+			}
+		}
+		in.APIVersions = chartutil.VersionSet(apis)
+		rel, err := in.Run(ch, map[string]interface{}{})
+		o.fill(m, rel, err)
+		return o
+	}
+	// 1. one Configuration, two renders
+	cfg := new(action.Configuration)
+	_ = run(cfg, "v1.99.0", []string{extraAPI, "verif.example/v8"})
+	second := run(cfg, "", nil)
+	if got := second.Triple(); got != want {
+		a.noteDiff(&a.cfgDiff, fmt.Sprintf("second render through the same Configuration (first had --kube-version v1.99.0 --api-versions %s): CAPA payloads %v", extraAPI, m.capaPayloads(second)), got, want)
+	}
+	if !m.Case.uses("CAPA") || conc <= 0 {
+		return
+	}
+	// 2. overlapping renders with exactly one --api-versions entry each
+	withIt := run(new(action.Configuration), "", []string{extraAPI})
+	for _, v := range m.capaPayloads(withIt) {
+		if v != "true" {
+			a.noteDiff(&a.capsDiff, "a render with --api-versions "+extraAPI+" alone", "Has = "+v, "true")
+			return
+		}
+	}
+	wantWith := withIt.Triple()
+	var mu sync.Mutex // (run draws from r)
+	for round := 0; round < rounds; round++ {
+		var wg sync.WaitGroup
+		for g := 0; g < conc; g++ {
+			wg.Add(1)
+			mu.Lock()
+			chSeed := r.Int63()
+			mu.Unlock()
+			go func(g int, chSeed int64) {
+				defer wg.Done()
+				var o One
+				ch, err := m.Load("files", rand.New(rand.NewSource(chSeed)))
+				if err != nil {
+					return
+				}
+				in := action.NewInstall(new(action.Configuration))
+				in.ClientOnly, in.DryRun, in.Replace, in.ReleaseName, in.Namespace = true, true, true, "rel", "ns"
+				in.SubNotes, in.EnableDNS = m.Case.SubNotes, m.Case.DNS
+				api, exp := extraAPI, wantWith
+				if g%2 == 1 {
+					api, exp = fmt.Sprintf("verif.example/w%d", g), want
+				}
+				in.APIVersions = chartutil.VersionSet{api}
+				rel, err := in.Run(ch, map[string]interface{}{})
+				o.fill(m, rel, err)
+				if got := o.Triple(); got != exp {
+					a.noteDiff(&a.capsDiff, fmt.Sprintf("overlapping render with --api-versions %s alone: CAPA payloads %v", api, m.capaPayloads(o)), got, exp)
+				}
+			}(g, chSeed)
+		}
+		wg.Wait()
+	}
 }
